@@ -99,6 +99,7 @@ type Path struct {
 	inited  map[*ssa.Package]bool
 	locks   map[*value]*lockState
 	lockSeq int
+	co      *coState // second logical thread (coroutine), if any
 	thread  int // current logical thread (verifThread); interference windows run another operation as thread 2
 	clock   int64
 	depth   int
